@@ -65,6 +65,16 @@ def corruptions(d, rng, n):
     if not d:
         return out
     chars = '()[]{}|>*+?/"\'`=:;,\n ax1'
+    # characters outside ASCII that Unicode-aware classes (\w \d \s, str.isalpha ...) accept: a letter, a
+    # superscript digit, an Arabic-Indic digit, a no-break space, a line separator, a combining accent
+    exotic = '\u00e9\u00df\u00b2\u0663\u00a0\u2028\u0301\u03bb'
+    for t in range(max(1, n // 2)):
+        # inside or right after an identifier / number / blank (where such a class would be at work)
+        cands = [i for i in range(len(d)) if d[i].isalnum() or d[i] in '_ ']
+        if cands:
+            i = rng.choice(cands)
+            c = rng.choice(exotic)
+            out.append(d[:i + 1] + c + d[i + 1:] if t % 2 == 0 else d[:i] + c + d[i + 1:])
     for _ in range(n):
         k = rng.randrange(5)
         i = rng.randrange(len(d))
